@@ -714,6 +714,55 @@ example : ftrlWeight (⟨1, 1, 1 / 2, 1⟩ : FtrlHp Rat) (-1 / 2) 4 = 0 := by de
 example : ftrlWeight (⟨1, 1, 1 / 2, 1⟩ : FtrlHp Rat) (3 / 2) 4 ≠ 0 := by decide +kernel
 example : ftrlWeights (⟨1, 1, 1 / 2, 1⟩ : FtrlHp Rat) ⟨[-1 / 2, 3 / 2, 1 / 4], [4, 4, 0]⟩ = [0, -1 / 6, 0] := by decide +kernel
 
+/-! ## the glue around the steps: `Option` model in, guards, the caller's loop -/
+
+/-- **naive Bayes, the caller's loop** `model = params.fit_with(model, &batch)?`: when every batch
+passes the guard of the code (at least one feature column, at least one row — otherwise `max()`
+errors) the loop returns one model per batch and its last model is the step folded over the history
+from the incoming model (`None` = empty map), i.e. `gnbRun` / `mnbRun` -/
+theorem nb_fit_history_is_run {σ : Type} (step : σ → Batch α → σ) (e : σ) (p : Nat)
+    (hist : List (Batch α)) (hg : ∀ b ∈ hist, nbGuard p b = true) (model : Option σ) :
+    ∃ sts, nbFitHistory step e p model hist = some sts ∧ sts.length = hist.length ∧
+      sts.getLastD (model.getD e) = hist.foldl step (model.getD e) :=
+  nbFitHistory_ok step e p hist hg model
+
+/-- **… and a batch that fails the guard turns the whole loop into the error** -/
+theorem nb_fit_history_guard {σ : Type} (step : σ → Batch α → σ) (e : σ) (p : Nat)
+    (hist : List (Batch α)) (hg : ∃ b ∈ hist, nbGuard p b = false) (model : Option σ) :
+    nbFitHistory step e p model hist = none :=
+  nbFitHistory_err step e p hist hg model
+
+example : (nbFitHistory (gnbStep (0 : Rat) 1) [] 1 none [[([1], 7)], [([2], 9)]]).map (·.length) = some 2 ∧
+    nbFitHistory (gnbStep (0 : Rat) 1) [] 1 none [[([1], 7)], []] = none ∧
+    (∀ b ∈ ([[([1], 7)], [([2], 9)]] : List (Batch Rat)), nbGuard 1 b = true) := by decide +kernel
+
+/-- **k-means, the caller's loop** (`Ok(m) | Err(NotConverged(m)) => Some(m)`) is the trace from the
+incoming model; `None` is the precomputed centroids with `cluster_count = 0`, and the initial
+centroids of the parameters play no role once a model exists -/
+theorem km_fit_history_is_run [Transc α] (m : Metric) (tol : α) (c0 : List (List α))
+    (hist : List (List (List α))) (model : Option (KState α)) :
+    kmFitHistory m tol c0 model hist = kmRunBy m tol (model.getD (kmFresh c0)) hist ∧
+    ∀ (c0' : List (List α)) (s : KState α),
+      kmFitHistory m tol c0 (some s) hist = kmFitHistory m tol c0' (some s) hist := by
+  refine ⟨kmFitHistory_eq_run m tol c0 hist model, ?_⟩
+  intro c0' s
+  rw [kmFitHistory_eq_run, kmFitHistory_eq_run]; rfl
+
+example : (kmFitHistory .l1 (1 / 2 : Rat) [[0]] none [[[1]], [[5 / 3]]]).map (·.2.1) = [false, true] := by
+  decide +kernel
+
+/-- **FTRL, the caller's loop**: one model per batch, the last one is the step folded over the
+history from the incoming model; `None` is `Ftrl::new` (the drawn `z`, `n = 0`) -/
+theorem ftrl_fit_history_is_run [Transc α] (m : α) (r32 : α → α) (hp : FtrlHp α) (z0 : List α)
+    (hist : List (List (List α) × List Bool)) (model : Option (FState α)) :
+    (ftrlFitHistory m r32 hp z0 model hist).length = hist.length ∧
+    (ftrlFitHistory m r32 hp z0 model hist).getLastD (model.getD (ftrlFresh z0)) =
+      ftrlRun m r32 hp z0.length (model.getD (ftrlFresh z0)) hist :=
+  ftrlFitHistory_last m r32 hp z0 hist model
+
+example : ((ftrlFitHistory (35 : Rat) id ⟨1, 1, 1 / 2, 1⟩ [1 / 4, 3 / 4] none
+    [([[1, 0]], [true]), ([[0, 1], [1, 1]], [false, true])]).map (·.n.length)) = [2, 2] := by decide +kernel
+
 end Field
 
 end LinfaSpec.Props.C15
